@@ -262,6 +262,9 @@ def run_checks(root):
         run = Run(p, "quick", repo, res)
         try:
             importlib.import_module("sa.rules.%s" % p.lower()).run(run)
+            from sa.rules.includes import INCLUDES
+            for inc in INCLUDES.get(p, []):
+                run.include(inc)
             v = sorted(set(o["rule"] for o in run.obligations if o["status"] == "violation"))
             if v:
                 fired[p] = v
